@@ -171,11 +171,26 @@ package metrics
 // C09, open (unrotated) metrics block: same rule as search.blockWorker for
 // rotated blocks — a series' run is in arrival order, so it is read to its end
 // and exactly the samples inside the window are kept.
+// C08 (a series comes back with its own datapoints): every series of the open
+// block is re-encoded into ONE scratch buffer shared by the whole query, and the
+// decoder reads that buffer from its start; after a series was decoded the
+// buffer is reset before the next series is looked up, whether or not the
+// series contributed a sample (ghost umbBufClean; the caller hands in an empty
+// buffer: ghostinit).
 //@ ghostdecl umbExhausted int
+//@ ghostdecl umbBufClean int
 //@ func SearchUnrotatedMetricsBlock
-//@   props C09
+//@   props C09 C08
 //@   assumecalleerequires
-//@   ghostinit ghost(0, "umbExhausted") == 0
+//@   ghostinit ghost(0, "umbExhausted") == 0 && ghost(0, "umbBufClean") == 1
+//@   loop 2:
+//@     invariant [scratch-buffer-is-empty-between-series] ghost(0, "umbBufClean") == 1
+//@   site call mSegment.mBlock.getUnrotatedBlockTimeSeriesIterator #1:
+//@     assert [each-series-is-decoded-from-an-empty-scratch-buffer] ghost(0, "umbBufClean") == 1 && arg2 == bytesBuffer
+//@   site callret mSegment.mBlock.getUnrotatedBlockTimeSeriesIterator #1:
+//@     ghostset ghost(0, "umbBufClean") = ite(result0 && result2 == nil, 0, 1)
+//@   site call bytesBuffer.Reset #1:
+//@     ghostset ghost(0, "umbBufClean") = 1
 //@   site callret tsitr.Next #1:
 //@     ghostset ghost(0, "umbExhausted") = ite(result, 0, 1)
 //@   site call tsitr.Err #1:
@@ -355,4 +370,18 @@ package metrics
 //@   pure
 //@   ensures [equal] implies(tagOperator == sutils.Equal, matchesThis == (actualValue == pattern) && mightMatchOtherValue == !matchesThis)
 //@   ensures [not-equal] implies(tagOperator == sutils.NotEqual, matchesThis == (actualValue != pattern) && mightMatchOtherValue)
+//@ end
+
+// C10 (recovery yields what was written): the segment-metadata WAL is ONE file
+// shared by every open metrics segment of every organisation.  Rotating one
+// segment must not delete it — the other segments' appended entries would be
+// gone and, since only a new organisation re-creates it, logging would stop —
+// except at the forced rotation of a shutdown, when every segment is rotated.
+//@ func (*MetricsSegment).rotateSegment
+//@   props C10
+//@   assumecalleerequires
+//@   site call metricsMEntryWalState.wal.DeleteWAL #1:
+//@     assert [the-shared-metadata-wal-is-deleted-only-at-a-forced-rotation] forceRotate
+//@   site store metricsMEntryWalState.wal #1:
+//@     assert [the-shared-metadata-wal-is-dropped-only-at-a-forced-rotation] forceRotate
 //@ end
